@@ -244,6 +244,37 @@ def harvest_repo_tests(ctx: Ctx) -> None:
         ctx.evaluations += len(eps)
 
 
+def apalache_lemma(ctx: Ctx) -> None:
+    """Optional: the counting clause for UNBOUNDED m and chunk capacity as an inductive invariant
+    discharged by Apalache (spec/apalache/ChunkLemma.tla).  TLC's bounded exhaustive check does not
+    depend on it; the outcome is reported in the evidence."""
+    import shutil
+    import subprocess
+    from ..tlc import SPEC_DIR
+    if shutil.which("apalache-mc") is None:
+        ctx.extra["apalache_lemma"] = "apalache-mc not installed"
+        return
+    outcome = []
+    with tempfile.TemporaryDirectory(prefix="verif_apa_") as d:
+        shutil.copy(SPEC_DIR / "apalache" / "ChunkLemma.tla", d)
+        for init, inv, length in (("Init", "IndInv", 0), ("IndInit", "IndInv", 1), ("IndInit", "Safe", 0)):
+            try:
+                p = subprocess.run(["apalache-mc", "check", f"--init={init}", f"--inv={inv}", f"--length={length}",
+                                    f"--out-dir={d}/out", "ChunkLemma.tla"], cwd=d, capture_output=True, text=True, timeout=240)
+            except subprocess.TimeoutExpired:
+                outcome.append(f"{init}=>{inv}: time-out")
+                continue
+            if "EXITCODE: OK" in p.stdout:
+                outcome.append(f"{init}/{inv}/len{length}: proved")
+            elif "The outcome is: Error" in p.stdout:
+                raise MachineryError(f"Apalache refutes the inductive invariant of ChunkLemma.tla ({init}, {inv})")
+            else:
+                outcome.append(f"{init}/{inv}: tool failure")
+    ctx.extra["apalache_lemma"] = outcome
+    if all(o.endswith("proved") for o in outcome):
+        ctx.note("unbounded counting lemma (all m >= 1, all chunk capacities): inductive invariant discharged by Apalache")
+
+
 def _sanity_hostile(ctx: Ctx) -> None:
     """The vmap-hostile op must really be vmap-hostile on this torch build (else the sequential
     clause would be checked vacuously): with k >= 2 and m >= 2 the call is expected to fail."""
@@ -304,6 +335,7 @@ def run(ctx: Ctx, replay: str | None) -> None:
     ctx.extra["trace_summary"] = summ
 
     harvest_repo_tests(ctx)
+    apalache_lemma(ctx)
 
     if ctx.tier == "thorough":
         # float32 and other split/shapes: second pass with a different seed
